@@ -262,7 +262,7 @@ fn gen_list(r: &mut Rng) -> Vec<u8> {
 fn run(ctx: &mut Ctx) {
     let mut loc = Local::default();
     let t = ctx.tier;
-    let n = t.pick(7u32, 9u32);
+    let n = t.pick(8u32, 9u32);
     let total = crate::gen::count_upto(ALPHA.len() as u64, n);
     let mut digits = Vec::new();
     let mut content = Vec::new();
@@ -286,7 +286,7 @@ fn run(ctx: &mut Ctx) {
         total, n
     ));
     let mut r = ctx.rng(6);
-    let n = ctx.scaled(t.pick(400_000, 8_000_000)) / ctx.nshards as u64;
+    let n = ctx.scaled(t.pick(2_000_000, 20_000_000)) / ctx.nshards as u64;
     for k in 0..n {
         let c = gen_list(&mut r);
         for mode in 0..4 {
